@@ -298,9 +298,14 @@ func enhancedStatusCode(err error, supported bool) string {
 	if firstrune != 50 && firstrune != 52 && firstrune != 53 {
 		return ""
 	}
-	re, rerr := regexp.Compile(`\b([245])\.\d{1,3}\.\d{1,3}\b`)
+	// The enhanced status code directly follows the reply code (RFC 2034, section 4)
+	re, rerr := regexp.Compile(`^\d{3}[ -]([245]\.\d{1,3}\.\d{1,3})\b`)
 	if rerr != nil {
 		return ""
 	}
-	return re.FindString(err.Error())
+	match := re.FindStringSubmatch(err.Error())
+	if len(match) < 2 {
+		return ""
+	}
+	return match[1]
 }
